@@ -26,6 +26,10 @@ pub trait ChainAnyT<W, S>: Sized + Clone {
     fn into_data(self, binary: bool) -> Result<(Vec<W>, Vec<W>), Self>;
     fn heads_debug(&self) -> String;
     fn is_whole(&self) -> bool;
+    /// checkpoint, decode with `m0`, seek back to the checkpoint, decode with `m1`; returns
+    /// (first result, whether the seek succeeded, second result). A refused seek (the Vec
+    /// backend cannot grow back) falls back to a clone taken at the checkpoint.
+    fn dec_via_seek(&mut self, m0: &Built, m1: &Built) -> (DecRes, bool, DecRes);
 }
 
 pub trait ChainWord: WordOps {
@@ -102,6 +106,18 @@ macro_rules! chain_level {
             }
             fn is_whole(&self) -> bool {
                 match self { $( $Any::$V(c) => c.is_whole(), )* }
+            }
+            fn dec_via_seek(&mut self, m0: &Built, m1: &Built) -> (DecRes, bool, DecRes) {
+                use constriction::{Pos, Seek};
+                match self { $( $Any::$V(c) => {
+                    let checkpoint = c.pos();
+                    let backup = c.clone();
+                    let r0 = <$W as WordOps>::dec_p::<_, $P>(c, m0);
+                    let sought = c.seek(checkpoint).is_ok();
+                    if !sought { *c = backup; }
+                    let r1 = <$W as WordOps>::dec_p::<_, $P>(c, m1);
+                    (r0, sought, r1)
+                } )* }
             }
         }
     };
@@ -213,7 +229,9 @@ pub enum Tamper {
     /// C14: flip these bit offsets (0..P) inside the chunk of decoded symbol `sym_idx`
     FlipInChunk { sym_idx: usize, bits: Vec<u32> },
     /// C14: use this model instead at decoded-symbol position `sym_idx`
-    SwapModel { sym_idx: usize, m: usize },
+    /// `via_seek`: realise the replacement on the live coder - checkpoint (`pos()`), decode with
+    /// the original model, `seek()` back, decode with the replacement
+    SwapModel { sym_idx: usize, m: usize, #[serde(default)] via_seek: bool },
     /// C13: drop this many words from the top of the exported remainders before re-import
     TruncateRemainders(usize),
     /// C09: try to encode this out-of-support symbol at re-encode position `at`
@@ -270,7 +288,7 @@ where
     }
 
     // one decode pass; `swap` / `flip` produce the tampered twin for C14
-    let decode_pass = |ctx: &mut Ctx, data: &[C::W], swap: Option<(usize, usize)>| -> Result<Option<DecodeRun<A<C>>>, Violation> {
+    let decode_pass = |ctx: &mut Ctx, data: &[C::W], swap: Option<(usize, usize, bool)>| -> Result<Option<DecodeRun<A<C>>>, Violation> {
         let coder = match A::<C>::from_data(t.p0, t.binary, data.to_vec()) {
             Some(Ok(c)) => c,
             Some(Err(())) => return Ok(None),
@@ -308,11 +326,18 @@ where
                     }
                 }
                 ChainStep::Dec { m } => {
-                    let mi = match swap { Some((idx, m2)) if idx == run.symbols.len() => m2, _ => *m };
+                    let mi = match swap { Some((idx, m2, _)) if idx == run.symbols.len() => m2, _ => *m };
                     let Some(b) = model(mi) else { ctx.stats.hit("skipped-op"); continue };
                     if b.p != run.coder.precision() || !b.can_decode() { ctx.stats.hit("skipped-op"); continue }
                     let pre = run.coder.clone();
-                    let res = run.coder.dec(b);
+                    let res = match (swap, model(*m)) {
+                        (Some((idx, _, true)), Some(b0)) if idx == run.symbols.len() && b0.p == b.p && b0.can_decode() => {
+                            let (_, sought, r1) = run.coder.dec_via_seek(b0, b);
+                            ctx.stats.hit(if sought { "op-chain-seek-back" } else { "op-chain-seek-refused" });
+                            r1
+                        }
+                        _ => run.coder.dec(b),
+                    };
                     let expect = r.as_mut().and_then(|r| r.next_quantile(b.p as u32));
                     match res {
                         DecRes::Ok(sym) => {
@@ -374,12 +399,12 @@ where
     // ---------------- C14: tampered twin
     if ctx.on("C14") {
         match &t.tamper {
-            Tamper::SwapModel { sym_idx, m } if *sym_idx < k => {
+            Tamper::SwapModel { sym_idx, m, via_seek } if *sym_idx < k => {
                 let ok = model(*m).map_or(false, |b| b.p == run.used[*sym_idx].1 && b.can_decode());
                 if ok {
                     ctx.stats.hit("fault-wrong-model");
-                    if let Some(twin) = decode_pass(ctx, &data, Some((*sym_idx, *m)))? {
-                        compare_twin(ctx, &run.symbols, run.out_of_data_at, &twin.symbols, twin.out_of_data_at, *sym_idx, "model replaced")?;
+                    if let Some(twin) = decode_pass(ctx, &data, Some((*sym_idx, *m, *via_seek)))? {
+                        compare_twin(ctx, &run.symbols, run.out_of_data_at, &twin.symbols, twin.out_of_data_at, *sym_idx, if *via_seek { "model replaced after seeking back to a checkpoint" } else { "model replaced" })?;
                     }
                 }
             }
@@ -662,7 +687,7 @@ pub fn generate(seed: u64, prop: &str, _thorough: bool) -> ChainTrace {
             if frng.chance(1, 2) {
                 Tamper::FlipInChunk { sym_idx, bits: (0..1 + frng.usize(3)).map(|_| frng.below(64) as u32).collect() }
             } else {
-                Tamper::SwapModel { sym_idx, m: frng.usize(models.len()) }
+                Tamper::SwapModel { sym_idx, m: frng.usize(models.len()), via_seek: frng.chance(1, 2) }
             }
         }
         "C13" if frng.chance(1, 6) => Tamper::TruncateRemainders(1 + frng.usize(3)),
